@@ -220,12 +220,24 @@ def mon_membership(seq, ctx):
 
 def mon_cleanup(seq, ctx):
     prev = None
+    owner = {}   # nick -> connection that registered it / renamed to it (history, not the connection's current flags)
     for op in seq.ops:
         st = parse_state(op)
+        for cid, cn in st.conns.items():
+            if cn["auth"] and cn["nick"] is not None and cn["nick"] in st.users:
+                owner[cn["nick"]] = cid
+        for n in list(owner):
+            if n not in st.users:
+                del owner[n]
         if prev is not None:
             for e in op.events:
                 if e.startswith("closed "):
                     d = int(e.split(" ")[1])
+                    # whatever the connection's own flags say by now: the users it registered end with it
+                    for n, o in list(owner.items()):
+                        if o == d and n in st.users and not any(
+                                c2 != d and x["auth"] and x["nick"] == n for c2, x in st.conns.items()):
+                            return [fail("cleanup", "user-survives-its-connection", op, nick=n, conn=d)]
                     cn = prev.conns.get(d)
                     if cn and cn["auth"] and cn["nick"]:
                         n = cn["nick"]
